@@ -212,6 +212,75 @@ func c12Data(r *core.Rng, s miniSchema, kind string) map[string]any {
 	return d
 }
 
+// c12TwoTemplates is a directed family: one package whose mocks land in several files rendered by
+// different custom templates. The package-level template-data is one and the same for all those
+// files, and it has to be validated against the schema of each file's own template: it conforms
+// to the schema of the "plain" files and (in variant 0 and 1) violates the schema of the "strict"
+// file, which therefore is rejected whatever the order in which the files are produced.
+func c12TwoTemplates(r *core.Rng, policy string, variant, idx int) c12Case {
+	names := []string{"Alpha", "Beta", "Gamma", "Delta"}
+	var ifs []world.Iface
+	for i, n := range names {
+		ifs = append(ifs, world.Iface{Name: n, Methods: []int{(7 + i) % len(world.MethodPool)}})
+	}
+	p := &world.Project{Module: c09Mod, Pkgs: []world.Pkg{{Dir: "a", Name: "a", Files: []world.SrcFile{{Name: "a.go", Ifaces: ifs}}}}, Aux: map[string]string{}}
+	plain := miniSchema{Props: map[string]string{}, NoExtra: false}
+	strict := miniSchema{Props: map[string]string{"owner": "integer", "level": "integer"}, NoExtra: true}
+	p.Aux["templates/plain.templ"] = probeTemplate
+	p.Aux["templates/plain.templ.schema.json"] = plain.JSON()
+	p.Aux["templates/strict.templ"] = probeTemplate
+	p.Aux["templates/strict.templ.schema.json"] = strict.JSON()
+	tp := "file://" + world.RootPlaceholder + "/templates/plain.templ"
+	ts := "file://" + world.RootPlaceholder + "/templates/strict.templ"
+	cfg := world.NewY()
+	cfg.Set("dir", "mocks/{{.SrcPackagePath}}").Set("pkgname", "mocks").Set("formatter", "noop")
+	e := cfg.Sub("packages").Sub(c09Mod + "/a")
+	pc := e.Sub("config")
+	pkgTD := map[string]any{"owner": "me"}
+	// the interface that selects the strict template overrides the offending key, so its own
+	// (merged) data conforms; only the file-level data — the package's — does not
+	strictIfaceTD := map[string]any{"owner": 7}
+	strictVerdict, why := "reject", "the file-level data of the strict file is the package's data, which its own template's schema rejects (owner is a string)"
+	switch variant {
+	case 1:
+		strictIfaceTD = map[string]any{"owner": 7, "level": 3}
+	case 2:
+		// true negative: the package data suits both schemas
+		pkgTD = map[string]any{"owner": 5}
+		strictIfaceTD = map[string]any{"level": 3}
+		strictVerdict, why = "accept", "conforming data is accepted"
+	}
+	pc.Set("template", tp).Set("filename", "plain_{{.InterfaceName}}.go")
+	if len(pkgTD) > 0 {
+		pc.Set("template-data", tdY(pkgTD))
+	}
+	strictIface := names[r.Intn(len(names))]
+	var pkgs []c12Pkg
+	for _, n := range names {
+		ic := e.Sub("interfaces").Sub(n)
+		cp := c12Pkg{Dir: "a", Ifaces: []string{n}, Template: "file", SchemaLoc: "default", Avail: "ok", Require: "unset", PkgTD: pkgTD, IfaceTD: map[string]map[string]any{}, ConfigsTD: map[string][]map[string]any{}}
+		if n == strictIface {
+			c := ic.Sub("config").Set("template", ts).Set("filename", "strict.go")
+			if len(strictIfaceTD) > 0 {
+				c.Set("template-data", tdY(strictIfaceTD))
+				cp.IfaceTD[n] = strictIfaceTD
+			}
+			cp.TemplURL, cp.SchemaURL, cp.OutFile, cp.Verdict, cp.Why = ts, ts+".schema.json", "mocks/"+c09Mod+"/a/strict.go", strictVerdict, why
+		} else {
+			cp.TemplURL, cp.SchemaURL, cp.OutFile, cp.Verdict, cp.Why = tp, tp+".schema.json", "mocks/"+c09Mod+"/a/plain_"+n+".go", "accept", "conforming data is accepted"
+			if strictVerdict == "reject" {
+				// whether files produced before or after the rejected one are written is not this property's business
+				cp.Verdict, cp.Why = "open", "a sibling file of the run is rejected"
+			}
+		}
+		pkgs = append(pkgs, cp)
+	}
+	p.Config = cfg
+	plan := world.Plan(policy, r.Uint64(), r.Intn(3), 2003+idx%20, 700+idx%200)
+	plan.HTTP = map[string][]simrt.Response{}
+	return c12Case{Tree: p.Tree(), Step: world.Step{Plan: plan}, RootTD: map[string]any{}, Pkgs: pkgs}
+}
+
 func c12Gen(c *core.Ctx, r *core.Rng, builtin map[string]miniSchema, policy string, idx int) c12Case {
 	o := world.GenOpts{MinPkgs: 2, MaxPkgs: 3, MaxIfacesPerPkg: 2}
 	pkgs := world.GenPackages(r, o)
@@ -722,6 +791,10 @@ func RunC12(c *core.Ctx) int {
 	cp := &Campaign[c12Case]{C: c, Engine: "W", N: n, Budget: budget,
 		Gen: func(i int) c12Case {
 			// the same world under three iteration orders (cache history differs)
+			if i < 27 {
+				// directed family first: 3 variants × 3 draws × 3 orders
+				return c12TwoTemplates(core.Stream(c.Seed, "c12-two", i/3), policies[i%3], (i/3)%3, i/3)
+			}
 			return c12Gen(c, core.Stream(c.Seed, "c12", i/3), builtin, policies[i%3], i/3)
 		},
 		Eval: func(cs c12Case, id string) Outcome {
